@@ -353,6 +353,20 @@ def run(ctx):
                         'deco_outer(1) + plain_outer(2)')])] + sample
     with cf.ThreadPoolExecutor(max_workers=12) as ex:
         rr = list(ex.map(lambda c: real_run(build, c['files'], c['script'], c['prof_mod'], c.get('prof_imports', False)), sample))
+    # the script itself selected by its bare file name, with and without the .py extension (an executable script `tool`): the same functions
+    base = crafted([('import helper', 'helper.hf(1)')], ['x'], defs=[('def own_a(n):\n    return n + 1\n\n\nclass Own:\n    def meth(self, a):\n        return a * 2\n', 'own_a(1) + Own().meth(2)')])
+    text = base['files']['prog.py']
+    spell = []
+    for script in ('tool.py', 'tool', './tool'):
+        fs = dict(base['files'])
+        fs[script.replace('./', '')] = text
+        spell.append((script, fs))
+    with cf.ThreadPoolExecutor(max_workers=4) as ex:
+        sr = list(ex.map(lambda sf: real_run(build, sf[1], sf[0].replace('./', ''), [sf[0]]), spell))
+    names = [sorted({k[1] for k in (r['keys'] or []) if k[0] in ('tool', 'tool.py')}) for r in sr]
+    if not names[0] or any(n != names[0] for n in names[1:]) or any(r['rc'] != 0 for r in sr):
+        ctx.fail('the script selected by its own file name is not profiled the same whatever the name looks like',
+                 {'finding_class': None, 'profiled_functions_per_spelling': {sp[0]: n for sp, n in zip(spell, names)}, 'exit_codes': [r['rc'] for r in sr], 'source': text[:1200]})
     nontrivial = set()
     stats = {'runs': 0, 'F-C09a': 0, 'F-C09b': 0, 'F-C09c': 0, 'star': 0}
     for c, r in zip(sample, rr):
